@@ -66,5 +66,21 @@ except ValueError:
 record("environment facts mirrored by the model: %s" % json.dumps(facts), 2, 0 if (facts["np.in1d exists"] is False and facts["np.array(list, copy=False) raises"] is True) else 1,
        "the model has no in1d and raises for copy=False on non-arrays")
 
+# 5. an operator the elements do not support is applied element by element: no error on an EMPTY object array
+bad = 0
+try:
+    r = np.array([], dtype=object) - "a"; bad += 0 if r.shape == (0,) else 1
+except TypeError:
+    bad += 1
+try:
+    np.array(["b"], dtype=object) - "a"; bad += 1
+except TypeError:
+    pass
+try:
+    np.argmin(np.abs(np.array([], dtype=object) - "a")); bad += 1
+except ValueError:
+    pass
+record("string-label arithmetic: TypeError iff the array is non-empty; argmin of an empty sequence raises ValueError", 3, bad)
+
 print(json.dumps({"numpy": np.__version__, "results": results}, indent=1))
 sys.exit(3 if any(r["mismatches"] for r in results) else 0)
